@@ -19,6 +19,8 @@ Template directives (lines starting with `//%%`):
   //%%                                  properties only; a contract line ending in `// #C02` marks a clause that
   //%%                                  serves only that property
   //%% @expect /<regex>/                the comment-stripped, whitespace-normalised item text must match
+  //%% @dropinner fn <name>             remove the nested fn item <name> from this fn's body (it is extracted on its own
+  //%%                                  with the container `<header> > fn <outer>`: rule R-hoist)
   //%% @discard                         emit nothing for this block (used with @expect: shape check only)
   //%% @nobody                          keep only the signature and end it with ';' (trait decls)
   //%% end
@@ -286,6 +288,7 @@ class Block:
         self.loopbody = {}     # k -> [(tline, text)]  proof block put first in the k-th loop body
         self.expects = []      # regexes the (whitespace-normalised) item text must match
         self.discard = False   # emit nothing (the block only checks @expect)
+        self.dropinner = []    # names of nested fn items removed from this fn's body (they are extracted on their own: R-hoist)
         self.props = None      # @props: the properties this function's obligations belong to (None = all of the unit's)
 
 
@@ -369,6 +372,8 @@ def parse_template(path, assumed=False, root=None, includes=None):
                 if not m:
                     raise TemplateError('%s:%d bad @expect' % (path, i0))
                 cur.expects.append(m.group(1))
+            elif d.startswith('@dropinner fn '):
+                cur.dropinner.append(d[len('@dropinner fn '):].strip())
             elif d == '@discard':
                 cur.discard = True
             elif d == '@pub':
@@ -481,12 +486,29 @@ def generate(template_path, repo_root, unit_name, canary=False):
             continue
         b = it[1]
         text, masked = load(b.file)
-        if b.container in ('-', ''):
+        cont, inner_of = b.container, None
+        mh = re.match(r'^(.*?)\s*>\s*fn\s+(\w+)\s*$', cont)
+        if mh:
+            # R-hoist: the item is a nested `fn` inside the body of `fn <outer>` (nested fn items cannot capture
+            # their environment, so lifting one to module level preserves behaviour)
+            cont, inner_of = mh.group(1).strip(), mh.group(2)
+        if cont in ('-', ''):
             spans = [(0, len(text))]
         else:
-            spans = find_containers(text, masked, b.container)
+            spans = find_containers(text, masked, cont)
             if not spans:
                 raise AnchorLost('%s: container not found: %s' % (b.file, b.container))
+        if inner_of:
+            outer = []
+            for lo, hi in spans:
+                try:
+                    outer.append(find_item(text, masked, lo, hi, 'fn', inner_of))
+                except AnchorLost:
+                    pass
+            if len(outer) != 1 or outer[0][1] is None:
+                raise AnchorLost('%s: outer fn %s in [%s]: %d matches' % (b.file, inner_of, cont, len(outer)))
+            spans = [(outer[0][1] + 1, outer[0][2] - 1)]
+            g.rewrites.append({'item': b.name, 'file': b.file, 'regex': 'HOIST nested fn %s out of fn %s' % (b.name, inner_of), 'repl': '', 'count': 1})
         found = []
         for lo, hi in spans:
             try:
@@ -504,6 +526,16 @@ def generate(template_path, repo_root, unit_name, canary=False):
         if b.discard:
             g.rewrites.append({'item': b.name, 'file': b.file, 'regex': 'EXPECT ' + ' ; '.join(b.expects), 'repl': '', 'count': 1})
             continue
+        for dn in b.dropinner:
+            mi0 = mask(item)
+            bo0 = mi0.find('{')
+            try:
+                ds, _, de = find_item(item, mi0, bo0 + 1, match_brace(mi0, bo0), 'fn', dn)
+            except AnchorLost as e:
+                raise AnchorLost('%s::%s @dropinner fn %s: %s' % (b.file, b.name, dn, e))
+            # keep the line count (diagnostics map back to source lines)
+            item = item[:ds] + '\n' * item[ds:de].count('\n') + item[de:]
+            g.rewrites.append({'item': b.name, 'file': b.file, 'regex': 'DROPINNER nested fn %s (hoisted: extracted as its own item)' % dn, 'repl': '', 'count': 1})
         # declared rewrites, applied to the raw item text
         for n, rx, repl in b.rewrites:
             new, cnt = re.subn(rx, repl, item, flags=re.M | re.S)
